@@ -5,6 +5,7 @@ import itertools
 import canon_common as cc
 import lib
 import norm_common as nc
+import normwhole as nw
 import urlgen
 
 ID = "C05"
@@ -185,13 +186,14 @@ def _url(case):
 def ops(case):
     if case["kind"] == "fn":
         return [case["op"]]
-    return nc.ops(_url(case), case["opts"])
+    # component-level lines (real parser's Parsed shipped), then the whole function on the string
+    return nc.ops(_url(case), case["opts"]) + nw.norm_ops(_url(case), case["opts"])
 
 
 def impl(case):
     if case["kind"] == "fn":
         return [lib.guarded(nc.fn_impl, case["op"])]
-    return nc.impl(_url(case), case["opts"])
+    return nc.impl(_url(case), case["opts"]) + nw.norm_impl(_url(case), case["opts"])
 
 
 # ---------------------------------------------------------------------------------------
@@ -518,7 +520,7 @@ def classify(case):
         return ["fn:" + case["op"]["f"]]
     url = _url(case)
     o = nc.full_opts(case["opts"])
-    labs = ["url"]
+    labs = ["url", nw.label(url, o)]
     for k in nc.ALL_OPTS:
         if o[k] != nc.DEFAULTS[k]:
             labs.append("%s=%s" % (k, o[k]))
